@@ -96,6 +96,21 @@ OptAlts == << [O0 EXCEPT !.rev = TRUE], [O0 EXCEPT !.pack = "all"], [O0 EXCEPT !
               [rev |-> TRUE, pack |-> "all", dflt |-> TRUE, mapswap |-> TRUE, split |-> TRUE] >>
 OptNames == <<"reversed", "all-packed", "none-packed", "explicit-defaults", "map-value-first", "split-embedded", "everything">>
 
+\* a conforming encoder may write any varint (key, length prefix, value) in a NON-MINIMAL form: the last byte gets its
+\* continuation bit and a zero byte follows.  PadTop re-writes the top-level records of an encoding that way.
+PadV(raw) == IF Len(raw) >= 10 THEN raw ELSE SubSeq(raw, 1, Len(raw) - 1) \o <<raw[Len(raw)] + 128, 0>>
+Raw(b, pos, n) == [j \in 1..n |-> b[pos + j]]
+RECURSIVE PadTop(_, _)
+PadTop(b, pos) ==
+  IF pos >= Len(b) THEN <<>>
+  ELSE LET k == DecKey(b, pos)
+           p == pos + k.n
+           e == SkipRec(b, p, k.tag, k.wt, MaxGroupDepth)
+           body == IF k.wt = WT_VARINT THEN PadV(Raw(b, p, e - p))
+                   ELSE IF k.wt = WT_LEN THEN LET l == DecUVarint(b, p, 64) IN PadV(Raw(b, p, l.n)) \o Raw(b, p + l.n, e - p - l.n)
+                   ELSE Raw(b, p, e - p)
+       IN PadV(Raw(b, pos, k.n)) \o body \o PadTop(b, e)
+
 \* unknown fields (tags no corpus message declares): one per wire type, plus a group holding a group
 UTag == 19000
 Unknowns == << KeyBytes(UTag, WT_VARINT) \o <<172, 2>>,
@@ -130,6 +145,9 @@ CasesOfMsg(D, m) ==
                  LET e == EncMsg(D, name, vals[2], OptAlts[i]) IN
                  IF Assert(Dec(D, name, e).v = Norm(D, name, vals[2].fs), <<"alternative does not decode to the value", name, OptNames[i]>>)
                  THEN Case(D.name, name, "alt", OptNames[i], e, encs[2], <<>>, <<>>) ELSE Case(D.name, name, "bad", "", <<>>, <<>>, <<>>, <<>>)]
+      padded == LET e == PadTop(encs[2], 0) IN
+                IF Assert(Dec(D, name, e).v = Norm(D, name, vals[2].fs), <<"padded varints do not decode to the value", name>>)
+                THEN <<Case(D.name, name, "alt", "padded-varints", e, encs[2], <<>>, <<>>)>> ELSE <<>>
       ra == RecBytes(D, name, vals[2])
       rb == RecBytes(D, name, vals[3])
       ab == encs[2] \o encs[3]
@@ -156,7 +174,7 @@ CasesOfMsg(D, m) ==
                                     ELSE KeyBytes(f.tag, WT_LEN) \o LenPrefix(Len(body(u))) \o body(u)
                      IN [u \in 1..Len(Unknowns) |->
                            Case(D.name, name, "unknown", "nested-" \o UnkNames[u], InsertSeq([ra EXCEPT ![i] = part(u)], 0, <<>>), encs[2], <<>>, <<>>)]
-  IN IF Assert(thm, <<"Dec(Enc(x)) # x", D.name, name>>) THEN canon \o alts \o merges \o unk \o nested ELSE <<>>
+  IN IF Assert(thm, <<"Dec(Enc(x)) # x", D.name, name>>) THEN canon \o alts \o padded \o merges \o unk \o nested ELSE <<>>
 
 RECURSIVE CasesOfSchema(_, _)
 CasesOfSchema(D, i) == IF i > Len(D.messages) THEN <<>> ELSE CasesOfMsg(D, D.messages[i]) \o CasesOfSchema(D, i + 1)
